@@ -1,8 +1,10 @@
-// Cooperative tasks (ucontext fibers) on fixed-address, 0xA5-prefilled stacks.
+// Cooperative tasks (fibers with a hand-written x86-64 context switch) on fixed-address,
+// 0xA5-prefilled stacks. (glibc's swapcontext is not used: ASan's interceptor for it clears the
+// shadow of the whole target stack, which would erase the red zones of live frames, and it costs
+// two sigprocmask system calls per switch.)
 // The simulator owns which task runs: a task runs only between switch_to() and its next
 // yield()/block()/exit, all of which return control to the scheduler context.
 #pragma once
-#include <ucontext.h>
 #include <cstddef>
 #include <cstdint>
 #include <functional>
@@ -19,7 +21,7 @@ struct Task {
     int exit_code = 0;
     bool exited_via_exit = false;  // exit() rather than return from entry
     std::function<int()> entry;
-    ucontext_t ctx;
+    void *sp = nullptr;          // saved stack pointer while switched out
     uint8_t *stack = nullptr;
     size_t stack_size = 0;
     void *asan_fake = nullptr;
@@ -53,7 +55,7 @@ class Tasks {
     void to_sched();
     std::vector<Task *> tasks_;
     Task *cur_ = nullptr;
-    ucontext_t sched_ctx_;
+    void *sched_sp_ = nullptr;
     void *sched_fake_ = nullptr;
     const void *sched_stack_bottom_ = nullptr;
     size_t sched_stack_size_ = 0;
